@@ -152,6 +152,49 @@ theorem C10_nth_def {α} (p : Pop) (k : Nat) (a : List α) (d : α) (hlen : a.le
 example : valueNth exPop 2 exVals (-7) = .ok [-5, -7, -7, -7] ∧
     valueFromFirst exPop exVals 0 = .ok [3, 0, -1, 0] := ⟨rfl, rfl⟩
 
+/-- `members_position` explicitly assigned (any order inside each group, not the order of
+appearance): the n-th member is the member whose assigned position is `n`; no result depends on
+which permutation sorting the persons by group `ordered_members_map` is -/
+theorem C10_nth_assigned_positions {α} (p : Pop) (pos mp : List Nat) (hv : ValidPositions p pos)
+    (hmp : SortsByGroup p.ids mp) (k : Nat) (a : List α) (d : α) (hlen : a.length = p.ms.length)
+    (hg : ∀ m ∈ p.ms, m.group < p.n) :
+    (∃ r, valueNthCore p pos mp k a d = .ok r ∧ r.length = p.n ∧
+      ∀ g, g < p.n → r[g]? = some
+        ((((membersOf p g).find? fun i => pos.getD i 0 == k).map fun i => a.getD i d).getD d)) ∧
+    valueNthAssigned p pos k a d = valueNthCore p pos mp k a d ∧
+    -- the positions the counter loop computes are one instance
+    (p.ms ≠ [] → ∃ pos₀, membersPosition p.ids = .ok pos₀ ∧ ValidPositions p pos₀ ∧
+      valueNth p k a d = valueNthCore p pos₀ (orderedMap p.ids) k a d) := by
+  have h := range_map_spec p.n (fun g =>
+    (((membersOf p g).find? fun i => pos.getD i 0 == k).map fun i => a.getD i d).getD d)
+  refine ⟨⟨_, valueNthCore_assigned p pos mp hv hmp k a d hlen hg, h.1, h.2⟩, ?_, ?_⟩
+  · unfold valueNthAssigned
+    rw [valueNthCore_assigned p pos mp hv hmp k a d hlen hg,
+      valueNthCore_assigned p pos _ hv (orderedMap_sorts p.ids) k a d hlen hg]
+  · intro hne
+    have hidne : p.ids ≠ [] := by simpa [Pop.ids] using hne
+    refine ⟨_, membersPosition_eq _ hidne, computed_positions_valid p, ?_⟩
+    unfold valueNth valueNthWith
+    rw [if_neg (by omega), membersPosition_eq _ hidne]
+
+example : ValidPositions exPop [2, 1, 0, 0, 1] ∧
+    valueNthAssigned exPop [2, 1, 0, 0, 1] 0 exVals 0 = .ok [4, 0, 1, 0] ∧
+    valueNthAssigned exPop [2, 1, 0, 0, 1] 2 exVals (-7) = .ok [3, -7, -7, -7] :=
+  ⟨⟨rfl, by
+      intro g
+      by_cases h0 : g = 0
+      · subst h0; decide
+      · by_cases h2 : g = 2
+        · subst h2; decide
+        · have : membersOf exPop g = [] := by
+            simp only [membersOf, exPop, List.filter_eq_nil_iff]
+            intro i hi
+            have : i < 5 := by simpa using hi
+            match i, this with
+            | 0, _ | 2, _ | 4, _ => simp [Ne.symm h0]
+            | 1, _ | 3, _ => simp [Ne.symm h2]
+          rw [this]; exact List.Perm.refl _⟩, rfl, rfl⟩
+
 /-! ## value of the member holding a unique role -/
 
 theorem C10_from_role_def {α} (p : Pop) (a : List α) (r : Role) (d : α) (hmax : r.max = some 1)
@@ -183,6 +226,39 @@ example : (∃ e, valueFromPerson exPop exVals exChild 0 = .error e) ∧
 
 example : exRef.max = some 1 ∧ (∀ g, g < exPop.n → (valuesOf exPop (some exRef) g exVals).length ≤ 1) ∧
     valueFromPerson exPop exVals exRef 0 = .ok [4, 0, 0, 0] := ⟨rfl, by decide, rfl⟩
+
+/-! ## value of the partner (the holder of the other sub-role of a two-sub-role role) -/
+
+theorem C10_partner_def {α} (p : Pop) (a : List α) (role : Role) (zero : α) (s1 s2 : Nat)
+    (hsubs : role.subs = [s1, s2]) (hlen : a.length = p.ms.length)
+    (hg : ∀ m ∈ p.ms, m.group < p.n)
+    (hu1 : ∀ g, g < p.n → (valuesOf p (some ⟨s1, [], some 1⟩) g a).length ≤ 1)
+    (hu2 : ∀ g, g < p.n → (valuesOf p (some ⟨s2, [], some 1⟩) g a).length ≤ 1) :
+    ∃ r, valueFromPartner p a role zero = .ok r ∧ r.length = p.ms.length ∧
+      ∀ i (hi : i < p.ms.length),
+        r[i]? = some
+          (if p.ms[i].role = s1 then (valuesOf p (some ⟨s2, [], some 1⟩) p.ms[i].group a).head?.getD zero
+           else if p.ms[i].role = s2 then (valuesOf p (some ⟨s1, [], some 1⟩) p.ms[i].group a).head?.getD zero
+           else zero) := by
+  refine ⟨_, valueFromPartner_eq p a role zero s1 s2 hsubs hlen hg hu1 hu2, by simp, fun i hi => ?_⟩
+  rw [List.getElem?_map, List.getElem?_eq_getElem hi]
+  simp [Role.holds]
+
+/-- only roles with exactly two sub-roles have partners -/
+theorem C10_partner_refused {α} (p : Pop) (a : List α) (role : Role) (zero : α)
+    (h : ∀ s1 s2, role.subs ≠ [s1, s2]) : ∃ e, valueFromPartner p a role zero = .error e := by
+  unfold valueFromPartner
+  by_cases hlen : a.length ≠ p.ms.length
+  · rw [if_pos hlen]; exact ⟨_, rfl⟩
+  · rw [if_neg hlen]
+    match hs : role.subs with
+    | [] => exact ⟨_, rfl⟩
+    | [_] => exact ⟨_, rfl⟩
+    | [s1, s2] => exact absurd hs (h s1 s2)
+    | _ :: _ :: _ :: _ => exact ⟨_, rfl⟩
+
+example : valueFromPartner exPop exVals exParent 0 = .ok [-5, 0, 0, 0, 3] ∧
+    (∃ e, valueFromPartner exPop exVals exChild 0 = .error e) := ⟨rfl, ⟨_, rfl⟩⟩
 
 /-! ## the order `numpy.argsort` gives to the members of one group does not matter
 
@@ -343,42 +419,54 @@ example : (∀ row, SortsRow row (argsortE row)) ∧
 
 /-! ## chained projections -/
 
-theorem C10_chain_compose {α} (p : Pop) (z : α) (hg : ∀ m ∈ p.ms, m.group < p.n) :
+theorem C10_chain_compose {α} (w : World) (e : Nat) (p : Pop) (hp : w.pop e = p) (z : α)
+    (hg : ∀ m ∈ p.ms, m.group < p.n) :
     -- (a) bubbling a result up a chain of projectors is the composition of their transforms
     (∀ (ps qs : List Proj) (x : List α),
-      bubbleUp p z (ps ++ qs) x
-        = match bubbleUp p z ps x with
+      bubbleUp w z (ps ++ qs) x
+        = match bubbleUp w z ps x with
           | .error e => .error e
-          | .ok y => bubbleUp p z qs y) ∧
+          | .ok y => bubbleUp w z qs y) ∧
     (∀ (start : Level) (ss : List Shortcut) (method : Level → Except String (List α)) ps lvl r,
-      resolveChain start ss = .ok (ps, lvl) → method lvl = .ok r →
-      chainCall p z start ss method = bubbleUp p z ps.reverse r) ∧
+      resolveChain w start ss = .ok (ps, lvl) → method lvl = .ok r →
+      chainCall w z start ss true method = bubbleUp w z ps.reverse r ∧
+      chainCall w z start ss false method = .ok r) ∧
     -- (b) person.group.<aggregate>: every person receives the value of the group it belongs to
     (∀ x : List α, x.length = p.n →
-      bubbleUp p z [.toPerson] x = .ok (p.ms.map fun m => x.getD m.group z)) ∧
+      bubbleUp w z [.toPerson e] x = .ok (p.ms.map fun m => x.getD m.group z)) ∧
     -- (c) group.first_person.group.<aggregate>: the group's own value, the default if no member
     (∀ x : List α, x.length = p.n → p.ms ≠ [] →
-      bubbleUp p z [.toPerson, .firstPerson] x
+      bubbleUp w z [.toPerson e, .firstPerson e] x
         = .ok ((List.range p.n).map fun g =>
             if (p.ms.any fun m => m.group == g) then x.getD g z else z)) ∧
     -- (d) group.<unique role>.group.<aggregate>: the group's own value if the role is held
     (∀ (r : Role) (x : List α), x.length = p.n → r.max = some 1 →
       (∀ g, g < p.n → (p.ms.filter fun m => m.group == g && r.holds m).length ≤ 1) →
-      bubbleUp p z [.toPerson, .uniqueRole r] x
+      bubbleUp w z [.toPerson e, .uniqueRole e r] x
         = .ok ((List.range p.n).map fun g =>
             if (p.ms.any fun m => m.group == g && r.holds m) then x.getD g z else z)) ∧
     -- (e) person.group.first_person.<person array>: the value of the first member of my group
     (∀ y : List α, y.length = p.ms.length → p.ms ≠ [] →
-      bubbleUp p z [.firstPerson, .toPerson] y
-        = .ok (p.ms.map fun m => (valuesOf p none m.group y)[0]?.getD z)) := by
-  refine ⟨bubbleUp_append p z, ?_, ?_, ?_, ?_, ?_⟩
+      bubbleUp w z [.firstPerson e, .toPerson e] y
+        = .ok (p.ms.map fun m => (valuesOf p none m.group y)[0]?.getD z)) ∧
+    -- (f) group.<containing entity>.<aggregate> is group.first_person.<containing entity>.<aggregate>:
+    --     every group receives the value of the containing group of its first member
+    (∀ (e' : Nat) (q : Pop), w.pop e' = q → e' < w.pops.length → (w.containing e).contains e' = true →
+      resolve w (.group e) (.entity e') = some ([.firstPerson e, .toPerson e'], .group e') ∧
+      (∀ x : List α, x.length = q.n → q.ms.length = p.ms.length → p.ms ≠ [] →
+        (∀ m ∈ q.ms, m.group < q.n) →
+        bubbleUp w z [.toPerson e', .firstPerson e] x
+          = .ok ((List.range p.n).map fun g =>
+              (valuesOf p none g (q.ms.map fun m => x.getD m.group z))[0]?.getD z))) := by
+  refine ⟨bubbleUp_append w z, ?_, ?_, ?_, ?_, ?_, ?_⟩
   · intro start ss method ps lvl r h1 h2
     simp only [chainCall, h1, h2]
+    exact ⟨rfl, rfl⟩
   · intro x hx
-    simp only [bubbleUp, transform_toPerson p z x hx hg]
+    simp only [bubbleUp, transform_toPerson w e p hp z x hx hg]
   · intro x hx hne
-    simp only [bubbleUp, transform_toPerson p z x hx hg]
-    rw [transform_firstPerson p z _ (by simp) hne hg]
+    simp only [bubbleUp, transform_toPerson w e p hp z x hx hg]
+    rw [transform_firstPerson w e p hp z _ (by simp) hne hg]
     simp only
     congr 1
     apply List.map_congr_left
@@ -387,8 +475,8 @@ theorem C10_chain_compose {α} (p : Pop) (z : α) (hg : ∀ m ∈ p.ms, m.group 
     simp only [roleOk, Bool.and_true] at this
     rw [← this, List.head?_eq_getElem?]
   · intro r x hx hmax hu
-    simp only [bubbleUp, transform_toPerson p z x hx hg]
-    rw [transform_uniqueRole p z r _ hmax (by simp) hg (by
+    simp only [bubbleUp, transform_toPerson w e p hp z x hx hg]
+    rw [transform_uniqueRole w e p hp z r _ hmax (by simp) hg (by
       intro g hgn
       rw [valuesOf_ms_map, List.length_map]
       exact hu g hgn)]
@@ -398,19 +486,43 @@ theorem C10_chain_compose {α} (p : Pop) (z : α) (hg : ∀ m ∈ p.ms, m.group 
     intro g _
     exact head?_broadcast p (some r) g x z
   · intro y hy hne
-    simp only [bubbleUp, transform_firstPerson p z y hy hne hg]
-    rw [transform_toPerson p z _ (by simp) hg]
+    simp only [bubbleUp, transform_firstPerson w e p hp z y hy hne hg]
+    rw [transform_toPerson w e p hp z _ (by simp) hg]
     simp only
     congr 1
     apply List.map_congr_left
     intro m hm
     have := hg m hm
     simp [List.getD_eq_getElem?_getD, this]
+  · intro e' q hq he' hc
+    have hc' : e' ∈ w.containing e := by simpa using hc
+    refine ⟨by simp [resolve, hc', he'], ?_⟩
+    intro x hx hlen hne hgq
+    simp only [bubbleUp, transform_toPerson w e' q hq z x hx hgq]
+    rw [transform_firstPerson w e p hp z _ (by simp [hlen]) hne hg]
 
-example : chainCall exPop 0 .person [.entity] (fun _ => groupSum exPop exVals none) = .ok [2, 0, 2, 0, 2] ∧
-    chainCall exPop 0 .group [.firstPerson, .entity] (fun _ => groupSum exPop exVals none) = .ok [2, 0, 0, 0] ∧
-    chainCall exPop 0 .group [.role exRef, .entity] (fun _ => groupSum exPop exVals none) = .ok [2, 0, 0, 0] :=
-  ⟨rfl, rfl, rfl⟩
+/-- households 0 and 2 of the example, and two families: family 1 = persons 0, 4, family 0 =
+persons 1, 2, 3; the household entity declares the family entity as containing -/
+def exFam : Pop := ⟨2, [⟨1, 0⟩, ⟨0, 0⟩, ⟨0, 0⟩, ⟨0, 0⟩, ⟨1, 0⟩]⟩
+def exWorld : World := ⟨[exPop, exFam], fun e => if e = 0 then [1] else []⟩
+
+example :
+    chainCall (World.single exPop) 0 .person [.entity 0] true (fun _ => groupSum exPop exVals none)
+      = .ok [2, 0, 2, 0, 2] ∧
+    chainCall (World.single exPop) 0 (.group 0) [.firstPerson, .entity 0] true (fun _ => groupSum exPop exVals none)
+      = .ok [2, 0, 0, 0] ∧
+    chainCall (World.single exPop) 0 (.group 0) [.role exRef, .entity 0] true (fun _ => groupSum exPop exVals none)
+      = .ok [2, 0, 0, 0] ∧
+    -- household.family.sum(a): the sum over the family of the household's first member
+    resolveChain exWorld (.group 0) [.entity 1] = .ok ([.firstPerson 0, .toPerson 1], .group 1) ∧
+    chainCall exWorld 0 (.group 0) [.entity 1] true (fun _ => groupSum exFam exVals none) = .ok [-2, 0, 4, 0] ∧
+    -- person.household.family.first_person.household.nb_persons(): five projectors
+    chainCall exWorld 0 .person [.entity 0, .entity 1, .firstPerson, .entity 0] true (fun _ => nbPersons exPop none)
+      = .ok [3, 2, 3, 2, 3] ∧
+    -- `project` is not projectable: returned as it is
+    chainCall exWorld (0 : Int) .person [.entity 0] false (fun _ => project exPop [10, 20, 30, 40] 0 none)
+      = .ok [10, 30, 10, 30, 10] :=
+  ⟨rfl, rfl, rfl, rfl, rfl, rfl, rfl⟩
 
 /-! ## refusals: wrong array sizes, nobody in the simulation -/
 
